@@ -79,6 +79,9 @@ def run_shard(params):
                 cnt["stop_points_enumerated"] = cnt.get("stop_points_enumerated", 0) + 1
         for k, Pk, H in runs:
             res["evaluations"] += 1
+            if H.get("stop_not_issued"):
+                cnt["stop_points_beyond_end_of_run"] = cnt.get("stop_points_beyond_end_of_run", 0) + 1
+                continue
             if H["errors"] or H["sim_errors"]:
                 res["inconclusive"].append(f"history seed={Pk['seed']} k={k}: {H['errors'][:1]} {str(H['sim_errors'][:1])[:300]}")
                 continue
